@@ -2,6 +2,8 @@ import GrinVerif.Lemmas.ChainBasic
 import GrinVerif.Lemmas.ChainApply
 import GrinVerif.Lemmas.ChainExampleFacts
 import GrinVerif.Lemmas.ChainImplRefine
+import GrinVerif.Lemmas.ChainPoolSpec
+import GrinVerif.Lemmas.ChainPoolExamples
 /-! # C13 — coinbase maturity, lock heights and relative locks hold on every fork -/
 namespace GV.Props.C13
 open GV GV.Chain
@@ -117,6 +119,321 @@ theorem impl_heights_refine_replay (p : Params) (g : Blk) (bs : List Blk) (s : U
         · injection hu with hu; rw [hu]
         · cases hu
 
+/-! ## Pool-facing decisions (`Chain::verify_coinbase_maturity`, `verify_tx_lock_height`,
+`validate_tx`; models `txMaturity`, `txLock`, `txValidate` in `Model/Chain.lean`, compared with the
+real calls by the harness lines `chain txmat|txlock|txval`)
+
+Definitions used: `txBlock` (the block a transaction would be mined into), `txMaturityImpl` /
+`Node.poolMaturityImpl` (position-based implementation-shaped check) in `Model/ChainPool.lean`;
+`HeadPath`, `IsPath` in `Lemmas/ChainMorePath.lean`; `CarriesNrd`, `nrdOf` in
+`Lemmas/ChainPoolSpec.lean`. -/
+
+/-- **Reorganisation clause.** After any delivery history from a fresh node over any block tree
+(forks, reorganisations in both directions, orphans connected later, duplicates, refused blocks,
+headers), the state every pool-facing decision reads — `stateAt head` — is the replay of the
+*current* head's own path from the genesis: that path exists, every block on it is stored and
+passed body validation, and nothing of what was applied and rewound before enters. With the genesis
+at height 0 the height of that state is the head's height and the k-th block of the path has
+height k. -/
+theorem pool_state_is_replay_of_head_path (p : Params) (n : Node) (es : List Event) (hf : Fresh n)
+    (hreg : Registered n es) (g : Blk) (hg : n.blk 0 = some g) :
+    ∃ rest s, (run p n es).path (run p n es).head = some (g :: rest) ∧
+      replay p (genesisState g) rest = .ok s ∧
+      (run p n es).stateAt p (run p n es).head = .ok s ∧
+      (∀ b ∈ g :: rest, b.id ∈ (run p n es).stored) ∧
+      (∀ b ∈ rest, n.blk b.id = some b ∧ validateBody p n.outs b (sumVals n.outs b.ins) = none) ∧
+      (g.h = 0 → s.height = rest.length ∧ s.height = (run p n es).heightOf (run p n es).head ∧
+        ∀ k (x : Blk), (g :: rest)[k]? = some x → x.h = k) := by
+  obtain ⟨rest, s, H, hst⟩ := head_path_after_run p n es hf hreg g hg
+  have hdf := run_defs p n es
+  refine ⟨rest, s, by rw [path_congr hdf.1]; exact H.path, H.replay, hst,
+    head_path_stored p n es hf hreg g rest s H, ?_, ?_⟩
+  · intro b hb
+    exact ⟨H.isPath.registered b (List.mem_cons_of_mem _ hb), (H.valid b hb).1⟩
+  · intro hg0
+    refine ⟨H.height_eq hg0, ?_, ?_⟩
+    · rw [H.height_eq hg0, heightOf_congr hdf.1, H.heightOf_eq, hg0]; omega
+    · intro k x hk
+      have := H.height_at k x hk
+      omega
+
+/-- … in particular the decisions depend on the current head only: two histories (over the same
+block tree) that end on the same head read the same state, whatever either of them applied,
+rewound or refused on the way. -/
+theorem pool_decisions_path_determined (p : Params) (n : Node) (es₁ es₂ : List Event)
+    (hh : (run p n es₁).head = (run p n es₂).head) :
+    (run p n es₁).stateAt p (run p n es₁).head = (run p n es₂).stateAt p (run p n es₂).head := by
+  rw [stateAt_congr (run_defs p n es₁).1, stateAt_congr (run_defs p n es₂).1, hh]
+
+/-- (a) **Pool / block agreement on every reachable head.** `s` = the state of the head after any
+delivery history. For every transaction `t` and the block `b` consisting of `t` plus a coinbase
+whose commitment is not unspent, at height `s.height + 1` on that head:
+* all three pool-facing checks let `t` in ⟺ every input is unspent, no coinbase input is immature
+  at `b`'s height, no lock height exceeds it, no NRD kernel is too close on this path, no output
+  duplicates an unspent commitment;
+* `checkBlock` — the validation `process_block` runs for `b` against this head — fails with the
+  body error if the body is invalid, else with `verify_coinbase_maturity`'s reason if that refuses,
+  else with `validate_tx`'s reason if that refuses, and succeeds otherwise;
+* a refusal by `verify_tx_lock_height` means the body of `b` is invalid. -/
+theorem pool_block_agreement (p : Params) (n : Node) (es : List Event) (hf : Fresh n)
+    (hreg : Registered n es) (g : Blk) (hg : n.blk 0 = some g) :
+    ∃ s, (run p n es).stateAt p (run p n es).head = .ok s ∧
+      ∀ (t : TxA) (id work ver ts cbo : Nat) (b : Blk), s.has cbo = false →
+        b = txBlock t id (run p n es).head (s.height + 1) work ver ts cbo →
+        ((txMaturity p s t = none ∧ txLock s t = none ∧ txValidate s t = none) ↔
+          ((∀ i ∈ t.ins, s.has i = true) ∧ immature p s b = false ∧ lockViolation b = false ∧
+            nrdBad s b = false ∧ dupOutput s b = false)) ∧
+        (checkBlock p (run p n es) b (run p n es).head =
+          match validateBody p (run p n es).outs b (sumVals (run p n es).outs b.ins) with
+          | some e => .error e
+          | none => match txMaturity p s t with
+            | some e => .error e
+            | none => match txValidate s t with
+              | some e => .error e
+              | none => .ok (effects s b)) ∧
+        (txLock s t ≠ none → ∀ outs iv, validateBody p outs b iv ≠ none) := by
+  obtain ⟨rest, s, _, hst⟩ := head_path_after_run p n es hf hreg g hg
+  refine ⟨s, hst, ?_⟩
+  intro t id work ver ts cbo b hcbo hb
+  subst hb
+  refine ⟨pool_admits_iff_block_passes p s t id _ work ver ts cbo hcbo, ?_, ?_⟩
+  · unfold checkBlock
+    rw [hst]
+    simp only
+    cases validateBody p (run p n es).outs _ _ with
+    | some e => rfl
+    | none =>
+      simp only
+      unfold applyBlock
+      rw [stateChecks_txBlock p s t id _ work ver ts cbo hcbo]
+      cases txMaturity p s t with
+      | some e => rfl
+      | none =>
+        cases txValidate s t with
+        | some e => rfl
+        | none => rfl
+  · intro hl outs iv
+    cases hl' : txLock s t with
+    | none => exact absurd hl' hl
+    | some e => exact txLock_refusal_is_block_refusal p s t id _ work ver ts cbo outs iv e hl'
+
+/-- (b) **Coinbase threshold, exactly.** On the head reached by any history: an unspent coinbase
+`i` recorded with creation height `c` was created by the block of height `c` **on the head's own
+path** (or by the genesis, `c = 0`), and a transaction spending it is refused by
+`verify_coinbase_maturity` iff the next block height is below `c + maturity` — one below the
+threshold refused, at the threshold admitted. A non-coinbase output is never held back. -/
+theorem pool_coinbase_threshold (p : Params) (n : Node) (es : List Event) (hf : Fresh n)
+    (hreg : Registered n es) (g : Blk) (hg : n.blk 0 = some g) :
+    ∃ rest s, (run p n es).path (run p n es).head = some (g :: rest) ∧
+      (run p n es).stateAt p (run p n es).head = .ok s ∧
+      ∀ i c cb, s.find i = some (i, c, cb) →
+        ((c = 0 ∧ (i, cb) ∈ g.outs) ∨ ∃ b ∈ rest, b.h = c ∧ (i, cb) ∈ b.outs) ∧
+        ∀ outs kers, txMaturity p s ⟨[i], outs, kers⟩ =
+          if cb = true ∧ s.height + 1 < c + p.maturity then some "ImmatureCoinbase" else none := by
+  obtain ⟨rest, s, H, hst⟩ := head_path_after_run p n es hf hreg g hg
+  refine ⟨rest, s, by rw [path_congr (run_defs p n es).1]; exact H.path, hst, ?_⟩
+  intro i c cb hfi
+  constructor
+  · have hm : (i, c, cb) ∈ s.utxo := by
+      unfold UState.find at hfi
+      exact List.mem_of_find?_eq_some hfi
+    rcases replay_utxo_provenance p rest _ s H.replay _ hm with h | ⟨b, hb, h1, h2⟩
+    · left
+      simp only [genesisState, List.mem_map] at h
+      obtain ⟨o, ho, he⟩ := h
+      simp only [Prod.mk.injEq] at he
+      obtain ⟨e1, e2, e3⟩ := he
+      exact ⟨e2.symm, by rw [← e1, ← e3]; exact ho⟩
+    · right
+      exact ⟨b, hb, h1.symm, h2⟩
+  · intro outs kers
+    cases cb with
+    | true =>
+      rw [txMaturity_single p s i c outs kers hfi]
+      simp
+    | false =>
+      rw [txMaturity_plain p s i c outs kers hfi]
+      simp
+
+/-- (b) … for transactions with any number of inputs, all unspent: refused iff *some* coinbase
+input is below its threshold. -/
+theorem pool_coinbase_threshold_general (p : Params) (s : UState) (t : TxA)
+    (hall : ∀ i ∈ t.ins, s.has i = true) :
+    (txMaturity p s t = some "ImmatureCoinbase" ↔
+      ∃ i ∈ t.ins, ∃ c, s.find i = some (i, c, true) ∧ s.height + 1 < c + p.maturity) ∧
+    (txMaturity p s t = none ↔
+      ∀ i ∈ t.ins, ∀ c, s.find i = some (i, c, true) → c + p.maturity ≤ s.height + 1) :=
+  txMaturity_refuses_iff p s t hall
+
+/-- (b) **Lock-height threshold, exactly**, on the head reached by any history (genesis at height
+0): `verify_tx_lock_height` refuses iff some height-locked kernel has a lock above
+`head height + 1`, i.e. the kernel is refused until the next block reaches its lock height. -/
+theorem pool_lock_threshold (p : Params) (n : Node) (es : List Event) (hf : Fresh n)
+    (hreg : Registered n es) (g : Blk) (hg : n.blk 0 = some g) (hg0 : g.h = 0) :
+    ∃ s, (run p n es).stateAt p (run p n es).head = .ok s ∧
+      s.height = (run p n es).heightOf (run p n es).head ∧
+      ∀ t, (txLock s t = some "TxLockHeight" ↔
+              ∃ f l, Ker.hl f l ∈ t.kers ∧ (run p n es).heightOf (run p n es).head + 1 < l) ∧
+           (txLock s t = none ↔
+              ∀ f l, Ker.hl f l ∈ t.kers → l ≤ (run p n es).heightOf (run p n es).head + 1) := by
+  obtain ⟨rest, s, _, _, hst, _, _, hh⟩ :=
+    pool_state_is_replay_of_head_path p n es hf hreg g hg
+  obtain ⟨_, h2, _⟩ := hh hg0
+  refine ⟨s, hst, h2, ?_⟩
+  intro t
+  rw [← h2]
+  exact txLock_refuses_iff s t
+
+/-- (b) **NRD threshold, exactly, on this path only.** On the head reached by any history, for
+every excess `ex`: either some block of the head's own path carries an NRD kernel with that excess
+— then the index lookup answers the height of the **last** such block `b` on the path, and a
+transaction (inputs unspent, no duplicate output) whose only NRD kernel is `(rel, ex)` is refused
+iff `next height < b.h + rel` — or no block of the path carries it — then the lookup answers
+nothing and such a transaction is never refused on NRD grounds. Blocks that are stored but are not
+on the head's path (another fork, a branch rewound by a reorganisation) play no role. -/
+theorem pool_nrd_threshold (p : Params) (n : Node) (es : List Event) (hf : Fresh n)
+    (hreg : Registered n es) (g : Blk) (hg : n.blk 0 = some g) :
+    ∃ rest s, (run p n es).path (run p n es).head = some (g :: rest) ∧
+      (run p n es).stateAt p (run p n es).head = .ok s ∧
+      ∀ ex,
+        ((∃ pre b post, rest = pre ++ b :: post ∧ CarriesNrd b ex ∧
+            (∀ b' ∈ post, ¬ CarriesNrd b' ex) ∧ s.nrd.find? (·.1 == ex) = some (ex, b.h) ∧
+            ∀ ins outs f rel, (∀ i ∈ ins, s.has i = true) → outs.any s.has = false →
+              (txValidate s ⟨ins, outs, [.nrd f rel ex]⟩ = some "NRDRelativeHeight" ↔
+                s.height + 1 < b.h + rel) ∧
+              (txValidate s ⟨ins, outs, [.nrd f rel ex]⟩ = none ↔ b.h + rel ≤ s.height + 1)) ∨
+         ((∀ b' ∈ rest, ¬ CarriesNrd b' ex) ∧ s.nrd.find? (·.1 == ex) = none ∧
+            ∀ ins outs f rel, (∀ i ∈ ins, s.has i = true) → outs.any s.has = false →
+              txValidate s ⟨ins, outs, [.nrd f rel ex]⟩ = none)) := by
+  obtain ⟨rest, s, H, hst⟩ := head_path_after_run p n es hf hreg g hg
+  refine ⟨rest, s, by rw [path_congr (run_defs p n es).1]; exact H.path, hst, ?_⟩
+  intro ex
+  rcases nrd_lookup_on_path p rest _ s rfl H.replay ex with
+    ⟨pre, b, post, e, hb, hpost, hfind⟩ | ⟨hall, hfind⟩
+  · left
+    refine ⟨pre, b, post, e, hb, hpost, hfind, ?_⟩
+    intro ins outs f rel hins hdup
+    obtain ⟨h1, h2⟩ := txValidate_nrd_iff s ⟨ins, outs, [.nrd f rel ex]⟩ hdup hins
+    constructor
+    · rw [h1]
+      constructor
+      · rintro ⟨f', rel', ex', hPrev, hk, hf', hlt⟩
+        simp only [List.mem_cons, List.not_mem_nil, or_false] at hk
+        injection hk with _ e2 e3
+        subst e2 e3
+        rw [hfind] at hf'
+        injection hf' with hf'
+        injection hf' with _ e4
+        omega
+      · intro hlt
+        exact ⟨f, rel, ex, b.h, List.mem_cons_self .., hfind, hlt⟩
+    · rw [h2]
+      constructor
+      · intro h
+        exact h f rel ex b.h (List.mem_cons_self ..) hfind
+      · intro hle f' rel' ex' hPrev hk hf'
+        simp only [List.mem_cons, List.not_mem_nil, or_false] at hk
+        injection hk with _ e2 e3
+        subst e2 e3
+        rw [hfind] at hf'
+        injection hf' with hf'
+        injection hf' with _ e4
+        omega
+  · right
+    refine ⟨hall, hfind, ?_⟩
+    intro ins outs f rel hins hdup
+    apply (txValidate_nrd_iff s ⟨ins, outs, [.nrd f rel ex]⟩ hdup hins).2.mpr
+    intro f' rel' ex' hPrev hk hf'
+    simp only [List.mem_cons, List.not_mem_nil, or_false] at hk
+    injection hk with _ e2 e3
+    subst e2 e3
+    rw [hfind] at hf'
+    cases hf'
+
+/-- (b) … for transactions with any kernels (inputs unspent, no duplicate output): refused on NRD
+grounds iff some NRD kernel's excess was last seen on the replayed path fewer than its relative
+height blocks before the next height. -/
+theorem pool_nrd_threshold_general (s : UState) (t : TxA) (hdup : t.outs.any s.has = false)
+    (hall : ∀ i ∈ t.ins, s.has i = true) :
+    (txValidate s t = some "NRDRelativeHeight" ↔
+      ∃ f rel ex hPrev, Ker.nrd f rel ex ∈ t.kers ∧ s.nrd.find? (·.1 == ex) = some (ex, hPrev) ∧
+        s.height + 1 < hPrev + rel) ∧
+    (txValidate s t = none ↔
+      ∀ f rel ex hPrev, Ker.nrd f rel ex ∈ t.kers → s.nrd.find? (·.1 == ex) = some (ex, hPrev) →
+        hPrev + rel ≤ s.height + 1) :=
+  txValidate_nrd_iff s t hdup hall
+
+/-- (c-i) **The implementation-shaped maturity check agrees with the specification while the
+header chain follows the body chain.** After any history (genesis at height 0, maturity > 0): let
+`hpath` be the path of `header_head` (the header MMR). If the header chain and the path of the
+head agree up to the cutoff height `next height − maturity` — in particular if `header_head` is
+the head or one of its descendants, or an ancestor not below the cutoff height — the
+position-based check of `Model/ChainPool.lean` (largest coinbase position against the
+`output_mmr_size` of the header found in the header MMR) returns exactly `txMaturity`, for every
+transaction. -/
+theorem pool_maturity_impl_agrees (p : Params) (n : Node) (es : List Event) (hf : Fresh n)
+    (hreg : Registered n es) (g : Blk) (hg : n.blk 0 = some g) (hg0 : g.h = 0)
+    (hpath : List Blk) (hH : (run p n es).path (run p n es).hhead = some hpath) :
+    ∃ rest s, (run p n es).path (run p n es).head = some (g :: rest) ∧
+      (run p n es).stateAt p (run p n es).head = .ok s ∧
+      -- agreement up to the cutoff height
+      ((p.maturity ≤ rest.length + 1 → rest.length + 1 - p.maturity < hpath.length ∧
+          hpath.take (rest.length + 1 - p.maturity + 1) =
+            (g :: rest).take (rest.length + 1 - p.maturity + 1)) →
+        ∀ t, (run p n es).poolMaturityImpl p t = txMaturity p s t) ∧
+      -- header head = head or a descendant of it
+      (0 < p.maturity → (g :: rest) <+: hpath →
+        ∀ t, (run p n es).poolMaturityImpl p t = txMaturity p s t) ∧
+      -- header head an ancestor of the head that still reaches the cutoff height
+      (hpath <+: (g :: rest) → rest.length + 1 - p.maturity < hpath.length →
+        ∀ t, (run p n es).poolMaturityImpl p t = txMaturity p s t) := by
+  obtain ⟨rest, s, H, hst⟩ := head_path_after_run p n es hf hreg g hg
+  have hdf := run_defs p n es
+  have key := fun hcut t =>
+    poolMaturityImpl_eq p (run p n es) n hdf.1 g rest s H hg0 hpath hH t hcut
+  refine ⟨rest, s, by rw [path_congr hdf.1]; exact H.path, hst, key, ?_, ?_⟩
+  · intro hm0 hpre
+    exact key (by simpa using cut_of_prefix_left p (g :: rest) hpath hm0 hpre)
+  · intro hpre hlen
+    exact key (by simpa using cut_of_prefix_right p (g :: rest) hpath hpre (by simpa using hlen))
+
+/-! ### (c-ii) negation witnesses for the recorded defect
+`C13-pool-maturity-cutoff-read-from-header-fork` (`known_findings.json`): concrete, kernel-checked
+histories on which the implementation-shaped check deviates from the specification because
+`header_head` sits on another fork (tree and histories in `Lemmas/ChainPoolExamples.lean`). -/
+
+/-- trunk y1..y5 processed, then the header of x2 (child of y1, work 500): `header_head` = x2, the
+header MMR has 3 entries, the cutoff height is 6 − 3 = 3 — the implementation-shaped check answers
+`Other` for the spend of y1's coinbase, which is mature (6 ≥ 1 + 3: the specification admits it). -/
+theorem pool_maturity_header_fork_refuses_mature_witness :
+    PoolEx.NX.head = 5 ∧ PoolEx.NX.hhead = 12 ∧
+    PoolEx.NX.poolMaturityImpl PoolEx.P PoolEx.spendY1 = some "Other" ∧
+    ∃ s, PoolEx.NX.stateAt PoolEx.P PoolEx.NX.head = .ok s ∧
+      txMaturity PoolEx.P s PoolEx.spendY1 = none :=
+  ⟨PoolEx.NX_head.1, PoolEx.NX_head.2, PoolEx.NX_impl, _, PoolEx.NX_state, PoolEx.NX_spec⟩
+
+/-- trunk y1..y5 processed, then the headers of z2, z3 (fork off y1, three outputs per block, work
+200): the header found at the cutoff height 3 is z3 with `output_mmr_size` 8, y4's coinbase sits at
+position 5 ≤ 8 — the implementation-shaped check admits the spend of y4's coinbase, which is
+immature (6 < 4 + 3: the specification refuses it). -/
+theorem pool_maturity_header_fork_admits_immature_witness :
+    PoolEx.NZ.head = 5 ∧ PoolEx.NZ.hhead = 23 ∧
+    PoolEx.NZ.poolMaturityImpl PoolEx.P PoolEx.spendY4 = none ∧
+    ∃ s, PoolEx.NZ.stateAt PoolEx.P PoolEx.NZ.head = .ok s ∧
+      txMaturity PoolEx.P s PoolEx.spendY4 = some "ImmatureCoinbase" :=
+  ⟨PoolEx.NZ_head.1, PoolEx.NZ_head.2, PoolEx.NZ_impl, _, PoolEx.NZ_state, PoolEx.NZ_spec⟩
+
+/-- … hence the implementation-shaped check does **not** refine the specification on all reachable
+nodes: the statement "for every history and transaction `poolMaturityImpl = txMaturity`" is false. -/
+theorem pool_maturity_impl_not_always_spec :
+    ¬ ∀ (p : Params) (n : Node) (es : List Event), Fresh n → Registered n es →
+      ∀ t s, (run p n es).stateAt p (run p n es).head = .ok s →
+        (run p n es).poolMaturityImpl p t = txMaturity p s t := by
+  intro h
+  have := h PoolEx.P PoolEx.N _ PoolEx.fresh_N PoolEx.reg_NX PoolEx.spendY1 _ PoolEx.NX_state
+  rw [PoolEx.NX_spec] at this
+  exact absurd (PoolEx.NX_impl.symm.trans this) (by decide)
+
 -- non-vacuity: spending a coinbase created at height 2 in a block at height 5 with maturity 3
 example : immature {} { utxo := [(7, 2, true)] }
     { id := 9, parent := some 8, h := 5, work := 2, ver := 2, ts := 1, ins := [7], outs := [], kers := [], tags := [] } = false := by
@@ -140,5 +457,65 @@ example : ∃ par sPar, Ex.B4.parent = some par ∧ Ex.N.stateAt Ex.P par = .ok 
 -- re-created by block 4, is reported with the height of its re-creation
 example : ∃ S, applyBlocks {} [Ex.G, Ex.B1, Ex.B3, Ex.B4] = .ok S ∧ S.getUnspent 100 = some ⟨5, 3⟩ :=
   ⟨_, rfl, by decide⟩
+
+/-! ### non-vacuity of the pool-facing theorems (trees of `Lemmas/ChainPoolExamples.lean`) -/
+section PoolExamples
+open GV.Chain.PoolEx
+
+-- `pool_state_is_replay_of_head_path`: hypotheses hold for a history with a reorganisation
+-- (a1 a2 a3, then b3 b4 take over); the head's path is the genesis, a1, a2, b3, b4 — a3, applied
+-- and rewound, is stored but not on it
+example : ∃ rest s, (run Q R esAB).path (run Q R esAB).head = some (G :: rest) ∧
+    replay Q (genesisState G) rest = .ok s ∧ (run Q R esAB).stateAt Q (run Q R esAB).head = .ok s ∧
+    (∀ b ∈ G :: rest, b.id ∈ (run Q R esAB).stored) ∧
+    (∀ b ∈ rest, R.blk b.id = some b ∧ validateBody Q R.outs b (sumVals R.outs b.ins) = none) ∧
+    (G.h = 0 → s.height = rest.length ∧ s.height = (run Q R esAB).heightOf (run Q R esAB).head ∧
+      ∀ k (x : Blk), (G :: rest)[k]? = some x → x.h = k) :=
+  pool_state_is_replay_of_head_path Q R esAB fresh_R reg_esAB G rfl
+example : (run Q R esAB).path (run Q R esAB).head = some [G, A1, A2, B3, B4] ∧
+    3 ∈ (run Q R esAB).stored := ⟨rfl, RAB_head.2⟩
+
+-- `pool_decisions_path_determined`: the history with the reorganisation and a history that never
+-- saw a3 end on the same head
+example : (run Q R esAB).stateAt Q (run Q R esAB).head =
+    (run Q R [.block A1, .block A2, .block B3, .block B4]).stateAt Q
+      (run Q R [.block A1, .block A2, .block B3, .block B4]).head :=
+  pool_decisions_path_determined Q R esAB _ (by decide)
+
+-- `pool_block_agreement` on the trunk's tip (next height 6): the block made of the spend of y1's
+-- coinbase (mature) plus the coinbase 206 passes `checkBlock`; the one spending y4's (immature) is
+-- refused with the pool's reason
+example : sTrunk.has 206 = false := by decide
+example : checkBlock P (run P N trunk) (txBlock spendY1 6 5 (sTrunk.height + 1) 7 3 6 206) 5 =
+    .ok (effects sTrunk (txBlock spendY1 6 5 (sTrunk.height + 1) 7 3 6 206)) := rfl
+example : checkBlock P (run P N trunk) (txBlock spendY4 6 5 (sTrunk.height + 1) 7 3 6 206) 5 =
+    .error "ImmatureCoinbase" := rfl
+example : (run P N trunk).stateAt P (run P N trunk).head = .ok sTrunk := rfl
+
+-- thresholds, one below / at: next height 6, maturity 3 — y3's coinbase (height 3) is spendable,
+-- y4's (height 4) is not; a lock at 6 passes, at 7 it does not
+example : txMaturity P sTrunk ⟨[103], [], []⟩ = none ∧
+    txMaturity P sTrunk ⟨[104], [], []⟩ = some "ImmatureCoinbase" := by decide
+example : txLock sTrunk ⟨[], [], [.hl 0 6]⟩ = none ∧
+    txLock sTrunk ⟨[], [], [.hl 0 7]⟩ = some "TxLockHeight" := by decide
+
+-- NRD across a reorganisation: on a3 (height 3, carries "e") a kernel (rel 5, "e") is refused for
+-- the next height 4 and one with rel 1 is admitted; after the reorganisation to b4 the occurrence
+-- on a3 — still stored, no longer on the head's path — does not count
+example : (run Q R esA).stateAt Q (run Q R esA).head = .ok sA ∧
+    txValidate sA nrdTx = some "NRDRelativeHeight" ∧
+    txValidate sA ⟨[100], [300], [.nrd 0 1 "e"]⟩ = none := ⟨RA_state, RA_nrd, by decide⟩
+example : (run Q R esAB).stateAt Q (run Q R esAB).head = .ok sB ∧ 3 ∈ (run Q R esAB).stored ∧
+    CarriesNrd A3 "e" ∧ txValidate sB nrdTx = none :=
+  ⟨RAB_state, RAB_head.2, ⟨0, 5, by decide⟩, RAB_nrd⟩
+
+-- `pool_maturity_impl_agrees`: on the trunk alone the header head is the head; the header MMR is
+-- the head's path and the implementation-shaped check answers like the specification
+example : (run P N trunk).path (run P N trunk).hhead = some [G, Y1, Y2, Y3, Y4, Y5] ∧
+    (run P N trunk).path (run P N trunk).head = some [G, Y1, Y2, Y3, Y4, Y5] := ⟨rfl, rfl⟩
+example : (run P N trunk).poolMaturityImpl P spendY4 = some "ImmatureCoinbase" ∧
+    (run P N trunk).poolMaturityImpl P spendY1 = none := by decide
+
+end PoolExamples
 
 end GV.Props.C13
